@@ -116,9 +116,22 @@ func runCheck(repo, verifDir, prop, tier, evidence string, timeout int, verbose 
 	cfg := solverCfg(tier, timeout)
 	SolveAll(cfg, run.obls)
 	// second chance for undecided obligations: longer timeout, whole portfolio (guards against load spikes)
+	known := loadKnown(verifDir)
+	isKnown := func(name string) bool {
+		for _, k := range known.Findings {
+			if k.Property == prop && k.Status == "open" {
+				for _, n := range k.Obligations {
+					if n == name {
+						return true
+					}
+				}
+			}
+		}
+		return false
+	}
 	var retry []*Obligation
 	for _, o := range run.obls {
-		if !o.Discharged() && (o.Status == "timeout" || o.Status == "unknown" || o.Status == "error") && !o.Cover {
+		if !o.Discharged() && !isKnown(o.Name) && (o.Status == "timeout" || o.Status == "unknown" || o.Status == "error") && !o.Cover {
 			o.Status = ""
 			retry = append(retry, o)
 		}
@@ -134,7 +147,6 @@ func runCheck(repo, verifDir, prop, tier, evidence string, timeout int, verbose 
 	}
 	tSolve := time.Since(t0).Seconds() - tLoad - tGen
 
-	known := loadKnown(verifDir)
 	type failure struct {
 		o     *Obligation
 		known *KnownFinding
